@@ -15,6 +15,20 @@ PATTERNS = {
 }
 
 
+# extreme patterns (only used where a check asks for them explicitly): a last span of one ulp-scale length, a whole
+# domain of length 1e-13, and a first span of 1e-15
+EXTREME = {
+    "T3": [0.0, 0.5, 1.0 - 2.0 ** -50, 1.0],
+    "D3": [0.0, 2.5e-14, 6e-14, 1e-13],
+    "H3": [0.0, 1e-15, 0.5, 1.0],
+}
+PATTERNS_ALL = dict(PATTERNS, **EXTREME)
+
+
+def breaks_of(name):
+    return PATTERNS_ALL[name]
+
+
 def knots_from(breaks, mults, p):
     kn = [breaks[0]] * (p + 1)
     for b, m in zip(breaks[1:-1], mults):
@@ -28,7 +42,7 @@ def kv_shapes(p, patterns=None, maxmult=None):
     out = []
     mm = max(1, p) if maxmult is None else max(1, min(p, maxmult))
     for name in (patterns or PATTERNS):
-        br = PATTERNS[name]
+        br = PATTERNS_ALL[name]
         k = len(br) - 2
         for mults in itertools.product(range(1, mm + 1), repeat=k):
             out.append((name, br, list(mults)))
